@@ -65,6 +65,12 @@ def offset_products(rng, tier):
     V = unitlib.vocab()
     others = [("3 s", Fraction(3), {"Second": 1}), ("2 m", Fraction(2), {"Meter": 1}), ("2 m*s", Fraction(2), {"Meter": 1, "Second": 1}),
               ("5 kg/s", Fraction(5), {"KiloGram": 1, "Second": -1}), ("4 km", Fraction(4000), {"Meter": 1})]
+    # partners whose units carry a conversion factor of their own (ft, min, btu, lb, mi/hr)
+    for txt in ["3 ft", "2 min", "4 btu", "2 lb", "5 mi/hr", "2 btu/K", "3 in*lb"]:
+        num, utext = txt.split(" ", 1)
+        names = unitlib.impl_units([utext])[0]
+        if names and not V.has_offset(names):
+            others.append((txt, Fraction(num) * V.scale(names), V.dims(names)))
     alone = [("10 °C", to_k("C", Fraction(10))), ("50 °F", to_k("F", Fraction(50))), ("1 k°C", to_k("C", Fraction(1000))),
              ("100 m°C", to_k("C", Fraction(1, 10))), ("300 K", Fraction(300)), ("-40 °F", to_k("F", Fraction(-40))), ("2 k°F", to_k("F", Fraction(2000)))]
     comp = ["10 °C*m", "10 m*°C", "5 °F/s", "2 °C^2", "3 s/°C", "7 °F*kg", "1 k°C*m"]
